@@ -273,3 +273,70 @@ func H_C08_embedded() {
 	vAssert(o1 == o2, "content of hidden / unexported embedded structs is unobservable, also through promotion: "+expr+" ["+tag+"]")
 	vCover("reached")
 }
+
+// hC08i: hidden fields of interface type may hold anything — scalars, slices,
+// maps, funcs — without Execute or Evaluate noticing.
+type hC08i struct {
+	V int8
+	H interface{} `bexpr:"-" alt:"-"`
+	u interface{}
+	M map[string]interface{} `bexpr:"-" alt:"-"`
+}
+
+func hiddenContentC08(c int) interface{} {
+	switch c {
+	case 0:
+		return vInt8()
+	case 1:
+		return []int{1, 2}
+	case 2:
+		return map[string]int{"a": 1}
+	case 3:
+		return func() {}
+	default:
+		return nil
+	}
+}
+
+func H_C08_filter_hidden_kinds() {
+	v1, v2 := vInt8(), vInt8()
+	mk := func() []hC08i {
+		c := vChoose(5) // one kind of hidden content per datum
+		return []hC08i{{V: v1, H: hiddenContentC08(c), u: hiddenContentC08(c)}, {V: v2, H: hiddenContentC08(c), M: map[string]interface{}{"k": hiddenContentC08(c)}}}
+	}
+	l1, l2 := mk(), mk()
+	expr := []string{`V == 1`, `V != 1`, `H == 1`, `M.k == 1`}[vChoose(4)]
+	f, err := CreateFilter(expr)
+	vAssume(err == nil)
+	sel := func(l []hC08i, asMap bool) (n int, isErr bool, panicked bool) {
+		defer func() {
+			if recover() != nil {
+				panicked = true
+			}
+		}()
+		var r interface{}
+		var e error
+		if asMap {
+			r, e = f.Execute(map[string]hC08i{"a": l[0], "b": l[1]})
+		} else {
+			r, e = f.Execute(l)
+		}
+		if e != nil {
+			return 0, true, false
+		}
+		if asMap {
+			return len(r.(map[string]hC08i)), false, false
+		}
+		return len(r.([]hC08i)), false, false
+	}
+	asMap := vBool()
+	n1, e1, p1 := sel(l1, asMap)
+	n2, e2, p2 := sel(l2, asMap)
+	vAssert(!p1 && !p2, "Execute does not panic, whatever hidden fields hold: "+expr)
+	vAssert(e1 == e2 && n1 == n2, "the selection does not depend on what hidden fields hold: "+expr)
+	ev := mustCreate(expr)
+	o1, _, _ := evalO(ev, l1[0])
+	o2, _, _ := evalO(ev, &l2[0])
+	vAssert(o1 == o2 && o1 != oPanic, "nor does Evaluate: "+expr)
+	vCover("reached")
+}
